@@ -41,6 +41,19 @@ def trees_upto(n, leaves, **kw):
         yield from trees_exact(k, leaves, **kw)
 
 
+def two_level(names=("a", "b"), extra=()):
+    """op1(op2(l1, l2), op3(l3, l4)) over the literals x, ~x of the names (+ extra leaves): every root rule that pairs two binary
+    operands -- (~p & q) | (p & ~q), distribution, absorption -- in every operand order, whatever the node budget of the
+    exhaustive space is."""
+    lits = [var(n) for n in names] + [("not", var(n)) for n in names] + list(extra)
+    ops = ("and", "or", "xor")
+    for o1 in ops:
+        for o2 in ops:
+            for o3 in ops:
+                for l1, l2, l3, l4 in itertools.product(lits, repeat=4):
+                    yield (o1, (o2, l1, l2), (o3, l3, l4))
+
+
 def prop_leaves(names):
     return [var(x) for x in names] + ["tt", "ff"]
 
